@@ -23,8 +23,9 @@ Reqs == { r \in [m : Methods, ver : {10, 11}, copt : {"none", "close", "ka"}, bo
             /\ (r.body = "none" => r.sz = 1) }
 \* what the origin sends back
 Ups == { u \in [st : {200, 201, 204, 304, 404, 500, 503, 299}, fr : {"cl", "chunked", "eof"}, tr : BOOLEAN, gz : BOOLEAN,
-                sse : BOOLEAN, sz : 1..3, hop : BOOLEAN, cookies : BOOLEAN] :
+                sse : BOOLEAN, sz : 1..3, hop : BOOLEAN, cookies : BOOLEAN, ver : {10, 11}] :
             /\ (u.tr => u.fr = "chunked")                       \* trailers need the chunked coding
+            /\ (u.ver = 10 => u.fr # "chunked" /\ ~u.hop)        \* an HTTP/1.0 origin: Content-Length or close, then it hangs up
             /\ (u.sse => u.st = 200 /\ u.fr \in {"chunked", "eof"} /\ ~u.gz /\ ~u.tr)
             /\ (u.gz => u.st \in {200, 404} /\ u.sz > 1)
             /\ (u.st \in {204, 304} => u.sz = 1 /\ ~u.gz /\ ~u.sse /\ u.fr = "cl" /\ ~u.tr)
@@ -44,7 +45,7 @@ Wire(r, u, closing) ==
   ELSE IF Undone(r, u) /\ u.fr # "chunked" THEN          \* length no longer known
        IF BugUncompressed THEN [head |-> "ok", fr |-> "raw", close |-> close]
        ELSE [head |-> "ok", fr |-> "selfdelim", close |-> close]   \* chunked, or raw + close: harness accepts both
-  ELSE IF u.fr = "cl"      THEN [head |-> "ok", fr |-> "cl", close |-> close]
+  ELSE IF u.fr = "cl"      THEN [head |-> "ok", fr |-> "cl", close |-> close \/ u.ver = 10]   \* may close: origin did
   ELSE IF u.fr = "chunked" THEN [head |-> "ok", fr |-> "chunked", close |-> close]
   ELSE                          [head |-> "ok", fr |-> "raw", close |-> TRUE]           \* delimited by close
 
